@@ -14,18 +14,21 @@ THEOREMS = ["BeyondVerif.C01." + t for t in (
     "kepl_ecc_kepl_hyperbolic ecc_kepl_ecc_hyperbolic m2eLoop_exit m2e_residual_elliptic mean_ecc_mean_elliptic "
     "ecc_mean_ecc_elliptic m2e_exit m2e_reduction_elliptic m2e_residual_hyperbolic mean_ecc_mean_hyperbolic ecc_mean_ecc_hyperbolic mean_mcirc_mean_hyperbolic keplToCart_respects_angEq keplToCirc_respects_angEq "
     "edge_methods_are_links forms_walk_unique infos_fpa_components_unit infos_fpa_tan infos_visviva_energy infos_period "
-    "infos_apsides infos_hyperbolic keplToCart_radius_speed_momentum kepl_cart_kepl_partial").split()] + [
+    "infos_apsides infos_hyperbolic keplToCart_radius_speed_momentum keplToCart_dot_node kepl_cart_kepl cart_kepl_cart_of_image walk_roundtrip_exact walk_roundtrip_cyl_sph").split()] + [
     "BeyondVerif.C01W.m2e_start_clamped", "BeyondVerif.C01W.mean_circular_keeps_hyperbolic_M"]
-LEVEL_TEXT = ("Lean theorems over R about the 17 edge functions, the M2E start/update/exit test and the Infos formulas translated from forms.py / "
-              "statevector.py on every run (py2lean): round trips of 8 of the 9 links in both directions (cyl, sph, circular, mean-circular, TLE, "
-              "equinoctial, true<->eccentric/hyperbolic anomaly) for all inputs in the stated domains, angles as points of the circle and exact inside "
-              "one turn; Kepler-equation residual and eccentric<->mean round trip within 2 tol (1+e)/(1-e) for every fuel and start branch; "
-              "keplerian->cartesian invariant under the circle relation; routing = unique tree walk (C20 on the regenerated graph); Infos relations "
-              "(fpa components unit, vis-viva/energy, period, apsides, hyperbolic). Differential correspondence of every edge, M2E, Infos and "
-              "StateVector.copy along the routed walk against the compiled Lean model.")
-LEVEL_NOTE = ("proof (partial): the keplerian<->cartesian round trip itself and the hyperbolic residual at the returned value are NOT proved "
-              "beyond a, e, i, node (oracle + correspondence only); R -> double gap covered by tolerance-bounded correspondence; two open findings (hyperbolic M2E "
-              "overflow, mean-circular form wraps a hyperbolic M); Lean kernel + propext/Classical.choice/Quot.sound; py2lean translator trusted")
+LEVEL_TEXT = ("Lean theorems over R about the 17 edge functions, the M2E reduction/start/update/exit test/return and the Infos formulas translated from "
+              "forms.py / statevector.py on every run (py2lean): round trips of all 9 links in both directions for all inputs in the stated domains "
+              "(cyl, sph, circular, mean-circular incl. hyperbolic M exact, TLE, equinoctial, true<->eccentric/hyperbolic anomaly, keplerian->cartesian->"
+              "keplerian in full, cartesian->keplerian->cartesian on every state that is the view of elements in the domain), angles as points of the "
+              "circle and exact inside one turn; Kepler-equation residual at the returned value for both conics (2 tol (1+e) / 8 e cosh H tol^2) and "
+              "eccentric<->mean round trips, for every fuel, every M and every start branch; keplerian->cartesian invariant under the circle relation and "
+              "definition-true (radius, vis-viva, angular momentum, r.v, node-line component); routing = unique tree walk (C20), walk round trip by "
+              "induction over the path (exact form); Infos relations. Differential correspondence of every edge, M2E, Infos and StateVector.copy "
+              "along the routed walk against the compiled Lean model.")
+LEVEL_NOTE = ("proof (partial): not proved are (1) that every cartesian state with h != 0, sin i != 0, e != 0 is the view of some elements (so "
+              "cartesian->keplerian->cartesian is proved on the image of keplerian->cartesian only), (2) termination of the Kepler loop (fuel; covered by "
+              "correspondence with fuel 10^4 and a watchdog oracle), (3) the walk round trip for links that return angles modulo 2 pi as one statement; "
+              "R -> double gap covered by tolerance-bounded correspondence; Lean kernel + propext/Classical.choice/Quot.sound; py2lean translator trusted")
 TECHNIQUE = "Lean 4 proof over edge formulas translated from the Python AST (py2lean) on every run; differential correspondence per edge; API oracle"
 TRUSTED = [
     "harness/py2lean.py translate_fn/translate_expr: Python AST of the 17 `_a_to_b` methods, M2E pieces and 13 Infos properties -> Generated/Forms{F,R}.lean on every run",
@@ -40,15 +43,16 @@ ASSUMPTIONS = [
     "angles are compared as points of the circle (same cos and sin); equality of numbers is proved inside the turn the code itself returns",
 ]
 NOT_COVERED = [
-    "keplerian <-> cartesian round trip in full: proved are radius, vis-viva speed and angular-momentum vector of keplerian->cartesian, recovery of a, e, i and of the node (kepl_cart_kepl_partial) and invariance under the circle relation; recovery of perigee/anomaly and cartesian->keplerian->cartesian are checked by the oracle on the real API and by correspondence only",
+    "cartesian -> keplerian -> cartesian for an ARBITRARY cartesian state: proved on the image of keplerian->cartesian (cart_kepl_cart_of_image); existence of elements for every state with h != 0, sin i != 0, e != 0 is not proved (oracle: independent textbook elements + round trips on the real API)",
+    "termination of the Kepler iteration (the model carries fuel; the code's loop is unbounded): correspondence with fuel 10^4 on all start branches and up to 60 revolutions, watchdog oracle incl. the pinned former non-returning inputs",
     "definition-truth of cartesian->keplerian (a from energy, e = |eccentricity vector|, node, perigee) is checked by the oracle against an independent numpy computation, not proved",
     "spherical rates as time derivatives (HasDerivAt) not proved; oracle uses central differences",
     "conditioning near e->0, i->0, e->1 (excluded by the quantifier); rounding",
 ]
 OPEN = [
-    "kepl_cart round trip: kepl_cart_kepl proved for a, e, i, node only (_partial); omega/nu part and cart_kepl_cart not proved",
-    "hyperbolic Kepler residual at the returned value (m2e_residual_hyperbolic_partial bounds it at the last iterate only); hyperbolic eccentric<->mean round trip",
-    "walk_roundtrip as a single induction over the routed path (the per-link theorems and the uniqueness of the walk are proved separately)",
+    "surjectivity of keplerian->cartesian onto the non-degenerate cartesian states (would turn cart_kepl_cart_of_image into the unconditional statement)",
+    "termination of Form.M2E as a theorem (exists fuel, m2e fuel e M != none) for 0 <= e < 1 after the reduction of b41fd8b, and for e > 1",
+    "walk_roundtrip for paths through links that return angles as circle points: walk_roundtrip_exact is the induction over the path for links with exact round trips; the AngEq version needs 'respects AngEq' for all 18 edges (proved for keplerian->cartesian and keplerian->circular)",
 ]
 RULE = ("correspondence: 2500 (quick) / 40000 (thorough) orbits, alternating ellipse/hyperbola, e in [1e-4,0.99] u [1.001,20], i in [0.01,pi-0.01], "
         "any node/perigee, anomalies incl. M<0, M>2pi, |H|<=8, three bodies; every one of the 18 edge methods on each orbit, StateVector.copy along the "
